@@ -256,6 +256,13 @@ def show_int(e, ty="int32"):
 
 
 # ---------------------------------------------------------------- program
+def derive_line(grp):
+    """one derive attribute; the pseudo entry `//` puts a comment after it and a comment line below it (trivia, no meaning)"""
+    names = [n for n in grp.split() if n != "//"]
+    line = "#[derive(" + ", ".join(names) + ")]"
+    return line + (" // derived\n// a comment between the attribute and the declaration" if "//" in grp.split() else "")
+
+
 class Program:
     def __init__(self, name):
         self.name = name
@@ -326,13 +333,13 @@ class Program:
         for name, gens, fields, derives in self.structs:
             if derives:
                 for grp in " ".join(derives).split("|"):            # "|" separates stacked attributes
-                    L.append("#[derive(" + ", ".join(grp.split()) + ")]")
+                    L.append(derive_line(grp))
             g = "[" + ", ".join(gens) + "]" if gens else ""
             L.append(f"struct {name}{g} {{ " + ", ".join(f"{f}: {tystr(t)}" for f, t in fields) + " }")
         for name, gens, variants, derives in self.enums:
             if derives:
                 for grp in " ".join(derives).split("|"):
-                    L.append("#[derive(" + ", ".join(grp.split()) + ")]")
+                    L.append(derive_line(grp))
             g = "[" + ", ".join(gens) + "]" if gens else ""
             vs = ", ".join(v + ("(" + ", ".join(tystr(t) for t in ts) + ")" if ts else "") for v, ts in variants)
             L.append(f"enum {name}{g} {{ {vs} }}")
